@@ -580,7 +580,7 @@ func genCase(t *rapid.T, mode string) m19.Case {
 		Stmt:  rapid.SampledFrom(m19.StmtForms).Draw(t, "rstmt"),
 		Noise: genNoise(t, "rnoise")}
 	if rk.Kind == "syntax" && rapid.IntRange(0, 2).Draw(t, "truncation") == 0 {
-		c.Raise.Var = rapid.IntRange(19, rk.N-1).Draw(t, "eof-variant") // errors reported at end of input
+		c.Raise.Var = rapid.IntRange(m19.SyntaxEOFFirst, m19.SyntaxEOFLast).Draw(t, "eof-variant") // errors reported at end of input
 	}
 	nonError := rk.Kind == "throw-prim" || rk.Kind == "throw-object"
 	for i := 0; i < n; i++ {
@@ -627,7 +627,7 @@ var traceFacet = harness.Register(&harness.Facet[m19.Case]{
 
 var syntaxFacet = harness.Register(&harness.Facet[m19.Case]{
 	Name:  "syntax",
-	Rule:  ruleCommon + "This facet: the construct is one of 28 injected syntax errors (unterminated string/regexp, unexpected token, juxtaposed tokens, illegal character, illegal break/continue/return, bad regexp, and nine truncations reported at end of input: unclosed block/paren/array/call/object/function/comment, trailing operator, optionally followed by a comment on the last line); half of the cases put it into eval code (SyntaxError with trace, message carries the position), a third of the cases carry non-ASCII comments and strings; otherwise the program itself fails: parser.ErrorList[0].Position, the error text, and eval of the same text must name the offending token's line and column. non-trivial for parse errors = token not in line 1 / column 1.",
+	Rule:  ruleCommon + "This facet: the construct is one of the injected syntax errors of lib/m19 syntaxForms (unterminated string/regexp, unexpected token, juxtaposed tokens, illegal character, illegal break/continue/return, bad regexp, one offending token in ~115 grammatical positions, and nine truncations reported at end of input: unclosed block/paren/array/call/object/function/comment, trailing operator, optionally followed by a comment on the last line); half of the cases put it into eval code (SyntaxError with trace, message carries the position), a third of the cases carry non-ASCII comments and strings; otherwise the program itself fails: parser.ErrorList[0].Position, the error text, and eval of the same text must name the offending token's line and column. non-trivial for parse errors = token not in line 1 / column 1.",
 	Quick: 700, Thorough: 10000,
 	Gen:   func(t *rapid.T) m19.Case { return genCase(t, "syntax") },
 	Check: checkCase,
@@ -663,6 +663,31 @@ func TestNumberFormatAll(t *testing.T) {
 	}
 	harness.SetExhaustive(numberFormatFacet.Name)
 	numberFormatFacet.Each(t, cases)
+}
+
+// syntaxAllFacet enumerates every injected syntax error in two places and four layouts.
+var syntaxAllFacet = harness.Register(&harness.Facet[m19.Case]{
+	Name: "syntax-all",
+	Rule: "complete enumeration of the injected syntax errors (unterminated literals, truncations, and one offending token in ~115 grammatical positions: property-name position of object literals incl. accessor names, after `.`, parameter lists and function heads, var declarations, case clauses, catch parameter, labels, argument lists, array literals, `new` callee, unary/binary/conditional operands, for/while/do/if/with headers, tokens that cannot start a statement, reserved words) x 2 places (the program itself; eval code inside a declared function) x 4 layouts (compact; a line break wherever the grammar allows one, so the token after the offending one is on a later line; block comments between all tokens; mixed) with non-ASCII comments and LF. Oracle: the offending token's position as placed by the renderer, checked like every other syntax case. non-trivial = all.",
+	Check: func(c m19.Case) harness.Outcome {
+		o := checkCase(c)
+		o.Nontrivial = o.Fail == "" && o.Discard == ""
+		return o
+	},
+})
+
+func TestSyntaxAll(t *testing.T) {
+	var cases []m19.Case
+	tapes := [][]byte{{0}, {11}, {13}, {3, 11, 7, 13, 0, 15, 14, 9}}
+	for v := 0; v < m19.SyntaxVariants; v++ {
+		for ti, tape := range tapes {
+			cases = append(cases,
+				m19.Case{Raise: m19.Raise{Kind: "syntax", Var: v, Noise: []string{"noop"}}, Tape: tape, Limit: 10, File: "s.js", Route: "compile", NonASCII: ti >= 2},
+				m19.Case{Links: []m19.Link{{Kind: "decl"}, {Kind: "eval"}}, Raise: m19.Raise{Kind: "syntax", Var: v, Stmt: "if"}, Tape: tape, Limit: 10, File: "s.js", Route: "compile", NonASCII: ti >= 2})
+		}
+	}
+	harness.SetExhaustive(syntaxAllFacet.Name)
+	syntaxAllFacet.Each(t, cases)
 }
 
 func TestTrace(t *testing.T)   { traceFacet.Run(t) }
